@@ -1,6 +1,6 @@
 From Coq Require Import ZArith List Bool Lia ZifyBool.
 Import ListNotations.
-From TD Require Import Model.C19_Memo.
+From TD Require Import Model.C19_Vmap Model.C19_Content Model.C19_Memo.
 Open Scope nat_scope.
 
 Lemma vkey_eqb_eq a b : vkey_eqb a b = true <-> a = b.
@@ -110,3 +110,16 @@ Proof.
   exists [MPass 9 7 5; MPass 8 6 4], [(0, 3%Z); (9, 5%Z)], [(0, 3%Z)].
   split; [vm_compute; right; left; reflexivity|discriminate].
 Qed.
+
+(* names lists are fresh per result: however often, and with whatever out_dims, a (memoised / multiply returned) view is
+   un-batched, every result gets the names of the view with None at ITS out_dim, and the view keeps its names *)
+Theorem unbatch_seq_fresh vn os :
+  unbatch_seq true vn os = (map (names_remove vn) os, vn).
+Proof.
+  induction os as [|o r IH]; cbn; [reflexivity|]. rewrite IH. reflexivity.
+Qed.
+
+(* the seeded variant C19-3 (no copy): the second un-batching of the same view gets one name too many, the view is changed *)
+Theorem unbatch_shared_list_refuted :
+  exists vn o1 o2, unbatch_seq false vn [o1; o2] <> (map (names_remove vn) [o1; o2], vn).
+Proof. exists (Some [Some 1]), 0%Z, 1%Z. vm_compute. discriminate. Qed.
